@@ -402,7 +402,7 @@ fn run_row(case: &Value, w: &World) -> Vec<(String, Value, Value)> {
     match (&r, accept) {
       (Ok(d), true) => check_accepted(&d.credential, &d.custom_claims, &mut diffs),
       (Ok(_), false) => diffs.push(("accepted_with_false_condition/verify_signature".into(), json!({"errors": allowed}), json!("accepted"))),
-      (Err(e), true) => diffs.push(("rejected_although_all_hold/verify_signature".into(), json!("accepted"), json!(e.to_string()))),
+      (Err(e), true) => diffs.push(("~rejected_although_all_hold/verify_signature".into(), json!("accepted"), json!(e.to_string()))),
       (Err(e), false) => {
         if !allowed.iter().any(|a| a == err_kind(e)) {
           diffs.push(("error_does_not_identify_condition/verify_signature".into(), json!(allowed), json!(err_kind(e))));
@@ -418,7 +418,7 @@ fn run_row(case: &Value, w: &World) -> Vec<(String, Value, Value)> {
   match (&r, accept) {
     (Ok(d), true) => check_accepted(&d.credential, &d.custom_claims, &mut diffs),
     (Ok(_), false) => diffs.push(("accepted_with_false_condition/validate".into(), json!({"errors": allowed}), json!("accepted"))),
-    (Err(e), true) => diffs.push(("rejected_although_all_hold/validate".into(), json!("accepted"), json!(e.to_string()))),
+    (Err(e), true) => diffs.push(("~rejected_although_all_hold/validate".into(), json!("accepted"), json!(e.to_string()))),
     (Err(e), false) => {
       let mut got: Vec<String> = e.validation_errors.iter().map(|x| err_kind(x).to_string()).collect();
       got.sort();
